@@ -108,6 +108,9 @@ def tree(w):
     w.write("d/a.abstract", b"v1\n")
     w.write("d/page.html", b"<html><title>T</title></html>\n")
     w.write("d/pic.gif", b"GIF89a")
+    # UMN link files: the listing depends on the merge-and-sort step that follows the directory walk
+    w.write("d/.Links", b"Name=zz other server\nType=1\nPath=/elsewhere\nHost=other.example\nPort=7070\n")
+    w.write("d/.names", b"Path=./pic.gif\nName=000 first picture\n")
     w.mkdir("e")
     w.write("e/b.txt", b"b\n")
     w.write("big.bin", bytes(range(256)) * 1200)
